@@ -392,21 +392,29 @@ func c20Table(c *Ctx) {
 	// services[m.GetFullyQualifiedName()] = *m
 	okKey := false
 	nUpd := 0
-	EachInstr(pm, func(in ssa.Instruction) {
+	// in prepareMethodList or in the helpers of the package it calls (collectMethods, addServiceMethods)
+	var pmRegion []ssa.Instruction
+	for _, g := range FindFuncs(pm, 3, func(*ssa.Function) bool { return true }) {
+		EachInstr(g, func(in ssa.Instruction) { pmRegion = append(pmRegion, in) })
+	}
+	for _, in := range pmRegion {
 		mu, isMU := in.(*ssa.MapUpdate)
 		if !isMU {
-			return
+			continue
+		}
+		if _, n := NamedOf(mu.Map.Type().Underlying().(*types.Map).Elem()); n != "MethodDescriptor" {
+			continue
 		}
 		nUpd++
 		kc, _ := CallOfValue(mu.Key)
 		if kc == nil || !MatchCC(&kc.Call, Spec{"github.com/jhump/protoreflect/desc", "MethodDescriptor", "GetFullyQualifiedName"}) {
-			return
+			continue
 		}
 		// the value is the dereferenced descriptor the name was taken from
 		if u, isU := mu.Value.(*ssa.UnOp); isU && u.Op == token.MUL && u.X == kc.Call.Args[0] {
 			okKey = true
 		}
-	})
+	}
 	c.Check(okKey && nUpd == 1, "O20.4", fk(pm)+":methods-keyed-by-full-name", pm.Pos(), "services[m.GetFullyQualifiedName()] = *m for the same m; single writer")
 	okShared := false
 	var pmc *ssa.Call
